@@ -5,7 +5,11 @@ package mint
 // counterexample is confirmed on the real code).
 
 import (
+	"bytes"
 	"context"
+	"net/http"
+	"net/http/httptest"
+	"strings"
 	"crypto/sha256"
 	"encoding/hex"
 	"encoding/json"
@@ -22,6 +26,7 @@ import (
 	"github.com/elnosh/gonuts/cashu/nuts/nut14"
 	"github.com/decred/dcrd/dcrec/secp256k1/v4"
 	"github.com/decred/dcrd/dcrec/secp256k1/v4/ecdsa"
+	"github.com/gorilla/mux"
 	"github.com/lightningnetwork/lnd/lnwire"
 	"github.com/lightningnetwork/lnd/zpay32"
 
@@ -625,4 +630,52 @@ func TestVerifReplay_RotateCrashPoint(t *testing.T) {
 		}
 		m2.Shutdown()
 	})
+}
+
+// C20: a storage failure must reach the client as the generic cashu error
+// ({detail, code}), never as the storage layer's own error value. Drives the
+// real POST /v1/mint/bolt11 handler with a store whose SaveBlindSignatures AND
+// the following state revert fail.
+func TestVerifReplay_HTTPMintRawStorageError(t *testing.T) {
+	m := vNewMint(t, 0, nil)
+	q, err := m.RequestMintQuote(nut04.PostMintQuoteBolt11Request{Amount: 6, Unit: "sat"})
+	if err != nil {
+		t.Fatal(err)
+	}
+	if _, err := m.GetMintQuoteState(q.Id); err != nil {
+		t.Fatal(err)
+	}
+	db := &vDB{MintDB: m.db, fail: map[int]bool{}}
+	failing := false
+	db.onCall = func(n int, name string) {
+		if name == "SaveBlindSignatures" {
+			failing = true
+		}
+		if failing && (name == "SaveBlindSignatures" || name == "UpdateMintQuoteState") {
+			db.fail[n] = true
+		}
+	}
+	real := m.db
+	m.db = db
+	defer func() { m.db = real }()
+	ms := &MintServer{mint: m, cache: NewCache()}
+	o := vOutputs(t, m, []uint64{4, 2})
+	body, _ := json.Marshal(nut04.PostMintBolt11Request{Quote: q.Id, Outputs: o.bms})
+	req := httptest.NewRequest(http.MethodPost, "/v1/mint/bolt11", bytes.NewReader(body))
+	req = mux.SetURLVars(req, map[string]string{"method": "bolt11"})
+	rw := httptest.NewRecorder()
+	ms.mintTokensRequest(rw, req)
+	if rw.Code != http.StatusBadRequest {
+		t.Skipf("status %d: %s", rw.Code, rw.Body.String())
+	}
+	var e struct {
+		Detail *string `json:"detail"`
+		Code   *int    `json:"code"`
+	}
+	if err := json.Unmarshal(rw.Body.Bytes(), &e); err != nil || e.Detail == nil || e.Code == nil {
+		t.Fatalf("CONFIRMED: storage failure answered with a body that is not a cashu error {detail, code}: %q", rw.Body.String())
+	}
+	if *e.Code != int(cashu.StandardErrCode) || strings.Contains(*e.Detail, "injected storage error") {
+		t.Fatalf("CONFIRMED: storage failure leaked to the client: %q", rw.Body.String())
+	}
 }
